@@ -161,6 +161,15 @@ CHECKS = {
         design_ref='DESIGN.md §5 C12',
         note='Trusted base: CPython audit events for open(); permitted roots computed by the harness. Existence probes are recorded, not judged. No symlinks.',
         technique='runtime monitoring: audit-hook trace monitor with hostile file system (fault-injecting environment)'),
+    'C11': dict(
+        category='fault_enumeration',
+        text='Faults are injected into the real write paths (file.to_file, luafmt --overwrite, build over its input) at every stream write index, in the Lua '
+             'writer, in section encoders, in the PNG encoder, and as source-free failpoints raised from sys.monitoring LINE events at every distinct executed '
+             '(function, line) site plus random indices; after each delivered fault a snapshot oracle compares the destination (bytes, inode, mtime, '
+             'directory listing) with its state before the call. An audit hook logs early destination opens as supporting trace.',
+        design_ref='DESIGN.md §5 C11',
+        note='Trusted base: the injectors in vf/faults.py; CPython sys.monitoring. Faults after the encoder returned (the final copy) are out of scope.',
+        technique='runtime monitoring: fault injection (failing streams/encoders, sys.monitoring failpoints) with before/after state oracle'),
 }
 
 NOT_BUILT = 'check not built yet in this session (design in DESIGN.md §5); not claimed until its monitor runs silent on the unchanged tree'
